@@ -109,6 +109,7 @@ func GenFunc(prog *Prog, fn *ssa.Function, fc *FuncContract) *VC {
 
 // lazyPre: assert-only prelude blocks and the symbol whose use makes them relevant.
 var lazyPre = map[string]string{
+	"u2i8.ax": "2i8|i2bv8", "u2i16.ax": "2i16|i2bv16", "u2i32.ax": "2i32|i2bv32", "u2i64.ax": "2i64|i2bv64",
 	"strax":     "strlen",
 	"strlt.ax":  "strlt",
 	"strsub.ax": "strsub",
@@ -185,6 +186,20 @@ func (vc *VC) Query(o *Obligation, wantModel bool) string {
 			sym := primarySymbol(pre[i])
 			if s, ok := lazyPre[keys[i]]; ok {
 				sym = s
+				if strings.Contains(s, "|") {
+					hit := false
+					for _, alt := range strings.Split(s, "|") {
+						if strings.Contains(needed, alt) {
+							hit = true
+						}
+					}
+					if hit && !inc[i] {
+						inc[i] = true
+						needed += pre[i] + "\n"
+						changed = true
+					}
+					continue
+				}
 			}
 			if strings.HasSuffix(keys[i], ".ax") && sym == "" {
 				sym = strings.TrimSuffix(keys[i], ".ax")
